@@ -362,6 +362,7 @@ func (d *Driver) Reopen(op *Op) {
 	}
 	d.Probes["reopen"]++
 	d.CheckLedger("after clean restart")
+	d.CheckLeaks("after clean restart")
 }
 
 // reopenForks opens the closed store three ways (snapshot kept / deleted /
